@@ -64,14 +64,17 @@ PROPS = {
                                                "thread_local_while_a_system_is_running", "wait_runs_thread_locals_in_order"])}),
     "C13": dict(sd=True, suites={"exec": dict(fields=["builderr", "driver-exception", "setup_order", "dispose_order"], oracles=["setup_visits", "setup_keeps", "setup_recreates", "dispose_visits"]),
                                  "sysdata": dict(fields=["setup", "setupok", "setup-calls", "driver-exception"],
-                                                 oracles=["setup_keeps_existing", "setup_default_value", "setup_idempotent", "setup_composes"])}),
+                                                 oracles=["setup_keeps_existing", "setup_default_value", "setup_idempotent", "setup_composes"]),
+                                 "async": dict(fields=["setup_order", "builderr", "level-plan", "driver-exception"], oracles=["setup_visits"])}),
     "C14": dict(suites={"exec": dict(fields=XLAYOUT, oracles=["panic_payload", "panic_dependents", "panic_twice", "next_dispatch", "probe_free",
-                                                              "unexpected_panic"])}),
+                                                              "unexpected_panic"]),
+                        "async": dict(fields=["builderr", "level-plan", "driver-exception"], oracles=["tl_panic_contained", "next_dispatch"])}),
     "C15": dict(suites={"async": dict(fields=["async_accept", "builderr", "level-plan", "driver-exception"],
                                       oracles=["running_false_while_a_system_is_inside_run", "accessor_returned_while_a_system_is_running",
                                                "accessor_returned_before_all_finished", "thread_local_outside_wait",
                                                "thread_local_off_the_calling_thread", "thread_local_while_a_system_is_running",
-                                               "operation_panicked", "async_once", "borrow_panic", "wait_runs_thread_locals_in_order"])}),
+                                               "operation_panicked", "async_once", "borrow_panic", "wait_runs_thread_locals_in_order",
+                                               "tl_panic_contained", "next_dispatch", "setup_visits"])}),
     "C16": dict(suites={"parseq": dict(fields=["build", "reads", "writes", "setup", "accept", "driver-exception"],
                                        oracles=["conflict_accepted", "compatible_rejected", "setup_reaches_every_leaf", "unexpected_panic",
                                                 "once", "seq_order", "run_counts"])}),
